@@ -4,7 +4,7 @@
    behaviour (Read/Seek/paged ReadDir/Stat on what Open returns) is compared against the source on
    the real code by the harness; the theorems cover which BYTES an Open can ever hand out and
    when the source is consulted. *)
-From HP Require Import Base.Prelude Cache.Cache Cache.CacheProofs.
+From HP Require Import Base.Prelude Cache.Cache Cache.CacheProofs KV.ListingProofs Cache.CacheDir Cache.CacheDirProofs.
 Open Scope nat_scope.
 
 (* Every state reachable by any sequence of opens (with or without faults) satisfies the invariant:
@@ -47,6 +47,42 @@ Theorem C10_settled_is_stable : forall src retain c can_remove ft part st n m,
   str_eqb n m = false -> settled st m -> settled (fst (copen src retain c can_remove ft part st n)) m.
 Proof. exact settled_stable. Qed.
 Print Assumptions C10_settled_is_stable.
+
+(* ---- directory handles (cache/dir.go): the handle keeps an offset and asks the source at every call ---- *)
+
+(* While the source lists the directory, the cache's handle is the same pager as the directory handle of the
+   key-value file system (C16's [zpage]: positive count = at most n more, non-positive = all that remain). *)
+Theorem C10_dir_handle_is_the_pager : forall es off n, off <= length es ->
+  cdir_read (Some es) off n =
+  match zpage es off n with
+  | Some (p, o) => (DEntries p, o)
+  | None => (DEOF, off)
+  end.
+Proof. exact cdir_is_the_pager. Qed.
+Print Assumptions C10_dir_handle_is_the_pager.
+
+(* The source's failure to list is the call's failure (not an empty page, not the end), the handle does not move,
+   and no other error exists. *)
+Theorem C10_dir_source_failure_is_reported : forall off n, cdir_read None off n = (DErr, off).
+Proof. exact cdir_source_failure_is_reported. Qed.
+Print Assumptions C10_dir_source_failure_is_reported.
+
+Theorem C10_dir_error_only_from_the_source : forall src off n, fst (cdir_read src off n) = DErr -> src = None.
+Proof. exact cdir_error_only_from_the_source. Qed.
+Print Assumptions C10_dir_error_only_from_the_source.
+
+(* Any sequence of calls, any counts, the source failing at any of them: what was delivered is exactly the listing
+   from the start to where the handle stands. *)
+Theorem C10_dir_failures_lose_nothing : forall es calls off, off <= length es ->
+  let '(rs, o) := cdir_run es off calls in
+  off <= o <= length es /\ delivered rs = sublist off o es.
+Proof. exact cdir_failures_lose_nothing. Qed.
+Print Assumptions C10_dir_failures_lose_nothing.
+
+Theorem C10_dir_drained : forall es calls,
+  let '(rs, o) := cdir_run es 0 (calls ++ [(true, 0%Z)]) in delivered rs = es.
+Proof. exact cdir_drained. Qed.
+Print Assumptions C10_dir_drained.
 
 Example C10_nonvacuous :
   let src := [(S "f", SFile [1;2;3;4;5]%N); (S "d", SDir)] in
